@@ -19,6 +19,22 @@ instance is evaluated by the Lean kernel itself (core `Rat` arithmetic does not 
 The statements quantify over all rational coordinates, velocities, boxes of any length, Python
 indices (negative ones wrap, out-of-range ones give `IndexError` on both sides of each equation),
 image multipliers and rotation matrices.
+
+WHICH STATEMENT IS CURRENT.  `Variant.current = .repaired`: since fix 8870063 `Distancevel` slices
+`box[:3]` like the other classes.  Box forms: `box3_boxN_agree` (all six classes, no guard) is the
+statement about today's code; `box3_box9_agree_counterexample`, `distancevel_box9_always_indexerror`
+and `box3_box9_agree_partial` speak about `Variant.asIs`, the code BEFORE the fix (kept as the record of
+the defect).  The 9-component form is the box MATRIX `xx yy zz xy xz yx yz zx zy`; the code uses its
+DIAGONAL only.  For orthogonal cells (off-diagonals zero — what the property quantifies over) the
+cell vectors are the image vectors and everything above applies (`lattice_shift_invariant_orthogonal9`);
+for genuinely triclinic cells the per-axis wrap is neither invariant under cell-vector shifts nor the
+shortest image (`triclinic_lattice_shift_counterexample`) — outside the property's words ("orthogonal
+boxes"), stated so that nobody reads more into `box3_boxN_agree` than "off-diagonal entries are ignored".
+
+Extension pass (second half of this file): minimality of the image, Galilean invariance, when
+`calculate` raises / returns and how many values, the Cremer–Pople sums of `Puckering`, what the
+constructors and `create_orderparameter` refuse, `calculate_order` and `Path.reverse` end to end
+(models: `Model/GeomCtor.lean`, `Model/GeomFlow.lean`; lemmas `Lemmas/GeomMin|GeomTotal|GeomFlow.lean`).
 -/
 namespace Infretis.C20
 open Infretis.Geom
@@ -474,8 +490,8 @@ theorem distance_min_image (var : Variant) (s : Sys) (i0 i1 : Int) (a b c : ℚ)
     have hz := sq_le_of_abs_le_half _ _ (abs_pbcWrap_le (V3.sub p1 p0).z c hc)
     linarith
 
-example : exSys.box = some (4 :: 8 :: 4 :: []) ∧ value .asIs (.distance 0 5 true) exSys = .ok [45 / 4] ∧
-    (45 / 4 : ℚ) ≤ (4 * 4 + 8 * 8 + 4 * 4) / 4 := by
+example : exSys.box = some (4 :: 8 :: 4 :: []) ∧ value .asIs (.distance 0 5 true) exSys = .ok [49 / 4] ∧
+    (49 / 4 : ℚ) ≤ (4 * 4 + 8 * 8 + 4 * 4) / 4 := by
   refine ⟨?_, ?_, ?_⟩ <;> decide +kernel
 
 /-! ### Galilean shift of the velocities -/
@@ -524,6 +540,14 @@ theorem calculate_returns (op : OP) (s : Sys) (hv : op.indicesValid s = true)
 /-- length stability alone, any variant, any system -/
 theorem value_length_stable (var : Variant) (op : OP) (s : Sys) (l : List ℚ) (h : value var op s = .ok l) :
     l.length = op.preLen := value_length var op s l h
+
+example : ∃ l, value .asIs (.puckering 0 1 2 3 4 5 true) exSys = .ok l ∧ l.length = 7 := by
+  obtain ⟨l, hl⟩ : ∃ l, value .asIs (.puckering 0 1 2 3 4 5 true) exSys = .ok l := by
+    have : (value .asIs (.puckering 0 1 2 3 4 5 true) exSys).toOption.isSome = true := by decide +kernel
+    cases h : value .asIs (.puckering 0 1 2 3 4 5 true) exSys with
+    | ok l => exact ⟨l, rfl⟩
+    | error e => rw [h] at this; cases this
+  exact ⟨l, hl, value_length_stable _ _ _ l hl⟩
 
 /-- all six atoms the same: every difference is zero, the ring is collapsed -/
 def collapsedSys : Sys := { pos := [⟨1, 2, 3⟩], vel := [⟨0, 0, 0⟩], box := some [4, 4, 4] }
@@ -587,12 +611,54 @@ example : puckeringFull .asIs exSys 0 1 2 3 4 5 false =
   · rfl
   · decide +kernel
 
+/-- **Cremer–Pople consistency of what `Puckering.calculate` measures**: the displacements `z_j` from the
+    mean plane satisfy the three defining conditions `Σ z_j = 0`, `Σ z_j sin(2πj/6) = 0`, `Σ z_j cos(2πj/6) = 0`,
+    and therefore `Σ z_j² = q2² + q3²` — in pre-image form `ZZ = (H1² + ¾H2²)/3 + Q3²/6`: the returned
+    `(θ, φ, Q)` are consistent spherical coordinates (`Q cos θ = q3`, `Q sin θ = q2`) for EVERY geometry,
+    periodic or not, degenerate or not. -/
+theorem puckering_plane_and_amplitude (var : Variant) (s : Sys) (i0 i1 i2 i3 i4 i5 : Int) (p : Bool) (l : List ℚ)
+    (h : value var (.puckering i0 i1 i2 i3 i4 i5 p) s = .ok l) :
+    ∃ z0 z1 z2 z3 z4 z5 nn S, l = [z0, z1, z2, z3, z4, z5, nn] ∧ puckerSums l = some S ∧
+      z0 + z1 + z2 + z3 + z4 + z5 = 0 ∧ z1 + z2 - z4 - z5 = 0 ∧
+      z0 + (1 / 2) * (z1 - z2 - z4 + z5) - z3 = 0 ∧
+      S.ZZ = (1 / 3) * (S.H1 ^ 2 + (3 / 4) * S.H2 ^ 2) + (1 / 6) * S.Q3 ^ 2 := by
+  simp only [value] at h
+  obtain ⟨P, hP, rfl⟩ := map_eq_ok _ _ _ h
+  obtain ⟨ring, rfl⟩ := puckering_ok_form s i0 i1 i2 i3 i4 i5 p P hP
+  have h0 := plane_sum ring
+  have h1 := plane_sin ring
+  have h2 := plane_cos ring
+  refine ⟨_, _, _, _, _, _, _, _, rfl, rfl, h0, h1, h2, ?_⟩
+  simp only [puckerOf] at h0 h1 h2 ⊢
+  rw [parseval6, h0, h1, h2]
+  ring
+
+example : ∃ l S, value .asIs (.puckering 0 1 2 3 4 5 true) exSys = .ok l ∧ puckerSums l = some S ∧
+    S.ZZ = (1 / 3) * (S.H1 ^ 2 + (3 / 4) * S.H2 ^ 2) + (1 / 6) * S.Q3 ^ 2 ∧ S.ZZ ≠ 0 := by
+  have hs : (value .asIs (.puckering 0 1 2 3 4 5 true) exSys).toOption.isSome = true := by decide +kernel
+  cases h : value .asIs (.puckering 0 1 2 3 4 5 true) exSys with
+  | error e => rw [h] at hs; cases hs
+  | ok l =>
+    obtain ⟨z0, z1, z2, z3, z4, z5, nn, S, hl, hS, _, _, _, hZ⟩ := puckering_plane_and_amplitude _ _ _ _ _ _ _ _ _ l h
+    refine ⟨l, S, rfl, hS, hZ, ?_⟩
+    have : ((value .asIs (.puckering 0 1 2 3 4 5 true) exSys).toOption.bind puckerSums).map
+        (fun S => decide (S.ZZ ≠ 0)) = some true := by decide +kernel
+    rw [h] at this
+    simp only [Except.toOption, Option.bind_some, hS, Option.map_some, Option.some.injEq, decide_eq_true_eq] at this
+    exact this
+
 /-! ### construction: what is refused when the object is made, what only at first use -/
 
 /-- **Only the COUNT is checked at construction** (and `dim`, and "no periodic Position"): an object that
     `create_orderparameter` returns has 2 / 2 / 2 / 4 / 6 indices; rings other than 6-membered are refused. -/
 theorem create_index_count (st : Settings) (o : Obj) (h : createOrderParameter st = .ok (.obj o)) :
     o.WellCounted := create_wellCounted st o h
+
+example : createOrderParameter ⟨"Puckering", some (.seq [.int 5, .int 4, .int 3, .int 2, .int 1, .int 0]), some true, none⟩
+      = .ok (.obj (.puckering [5, 4, 3, 2, 1, 0] true)) ∧ (Obj.puckering [5, 4, 3, 2, 1, 0] true).WellCounted := by
+  constructor
+  · decide +kernel
+  · rfl
 
 /-- number of indices each indexed class insists on -/
 def arityOf (k : String) : Option Nat :=
@@ -710,6 +776,12 @@ theorem calculateOrderFull_explicit_route (var : Variant) (op : OP) (s : SysF) (
       ⟨x, if s.velRev then v.map V3.neg else v, some b, s.velRev⟩ :=
   calculateOrderFull_explicit var op s x v b file
 
+example : (calculateOrderFull .asIs (some (.distance 0 1 true)) ⟨[], [], some [2, 2, 2], true⟩
+      (some exSys.pos) (some exSys.vel) (some [4, 8, 4]) ⟨none, none, none⟩).read = false ∧
+    (calculateOrderFull .asIs (some (.distance 0 1 true)) ⟨[], [], some [2, 2, 2], true⟩
+      (some exSys.pos) (some exSys.vel) (some [4, 8, 4]) ⟨none, none, none⟩).val = .ok [21 / 16] := by
+  constructor <;> decide +kernel
+
 /-- **Both routes agree**: reading (x, v, b) from the configuration file gives the same value and leaves
     the same System as handing the three arrays over (only the read request differs). -/
 theorem calculateOrderFull_routes_agree (var : Variant) (fn : Option OP) (s : SysF) (x v : List V3) (b : List ℚ)
@@ -719,7 +791,7 @@ theorem calculateOrderFull_routes_agree (var : Variant) (fn : Option OP) (s : Sy
     (calculateOrderFull var fn s none none none ⟨some x, some v, some b⟩).sys =
       (calculateOrderFull var fn s (some x) (some v) (some b) file).sys ∧
     (calculateOrderFull var fn s none none none ⟨some x, some v, some b⟩).read = true := by
-  refine ⟨?_, ?_, rfl⟩ <;> simp [calculateOrderFull]
+  refine ⟨?_, ?_, ?_⟩ <;> cases fn <;> rfl
 
 /-- **One missing argument discards the other two** (as the code is): if any of xyz / vel / box is `None`
     the file is read and ALL THREE come from the file — explicit arrays given alongside are ignored. -/
@@ -731,6 +803,13 @@ theorem calculateOrderFull_missing_arg_reads_all (var : Variant) (fn : Option OP
     rcases h with h | h | h <;> subst h <;> simp
   simp [calculateOrderFull, hr]
 
+/-- the quirk on a concrete call: explicit positions are dropped because `box` is missing -/
+example : (calculateOrderFull .asIs (some (.position 0 0)) ⟨[], [], none, false⟩
+      (some [⟨7, 7, 7⟩]) (some [⟨0, 0, 0⟩]) none ⟨some [⟨1, 2, 3⟩], some [⟨0, 0, 0⟩], none⟩).val = .ok [1] ∧
+    (calculateOrderFull .asIs (some (.position 0 0)) ⟨[], [], none, false⟩
+      (some [⟨7, 7, 7⟩]) (some [⟨0, 0, 0⟩]) none ⟨some [⟨1, 2, 3⟩], some [⟨0, 0, 0⟩], none⟩).read = true := by
+  constructor <;> decide +kernel
+
 /-- **`vel_rev` through the whole of `calculate_order`** (either route, as long as velocities arrive):
     velocity-type values are negated, position-type values unchanged. -/
 theorem calculateOrderFull_vel_rev (var : Variant) (op : OP) (s : SysF) (xyz vel : Option (List V3))
@@ -740,25 +819,203 @@ theorem calculateOrderFull_vel_rev (var : Variant) (op : OP) (s : SysF) (xyz vel
       if op.velocityDependent
       then (calculateOrderFull var (some op) { s with velRev := false } xyz vel box file).val.map negHead
       else (calculateOrderFull var (some op) { s with velRev := false } xyz vel box file).val := by
-  simp only [calculateOrderFull, hv, calculate, SysF.toSys]
-  generalize hp : (match (if (xyz.isNone || vel.isNone || box.isNone) = true then file.xyz else xyz) with
-    | some x => x | none => s.pos) = P
-  generalize hb : (match (if (xyz.isNone || vel.isNone || box.isNone) = true then file.box else box) with
-    | some b => some b | none => s.box) = B
-  have key := velocity_reversal_sign var op ⟨P, v, B⟩
+  rw [calculateOrderFull_eq, calculateOrderFull_eq]
+  have hB : ∀ (b : Bool) (X : Option (List ℚ)), coBox { s with velRev := b } X = coBox s X := by
+    intro b X; cases X <;> rfl
+  have hP : ∀ (b : Bool) (X : Option (List V3)), coPos { s with velRev := b } X = coPos s X := fun _ _ => rfl
+  simp only [hv, hB, hP, coVel, if_true, Bool.false_eq_true, if_false]
+  have key := fun P B => velocity_reversal_sign var op ⟨P, v, B⟩
   simp only [reverseVel] at key
-  have e1 : ∀ (vr : Bool) (vv : List V3),
-      (match (if (xyz.isNone || vel.isNone || box.isNone) = true then file.box else box) with
-        | some b => ({ (match (if (xyz.isNone || vel.isNone || box.isNone) = true then file.xyz else xyz) with
-            | some x => ({ s with velRev := vr, pos := x } : SysF) | none => { s with velRev := vr }) with
-            vel := vv, box := some b } : SysF)
-        | none => { (match (if (xyz.isNone || vel.isNone || box.isNone) = true then file.xyz else xyz) with
-            | some x => ({ s with velRev := vr, pos := x } : SysF) | none => { s with velRev := vr }) with
-            vel := vv }) = ⟨P, vv, B, vr⟩ := by
-    intro vr vv
-    subst hp hb
-    cases (if (xyz.isNone || vel.isNone || box.isNone) = true then file.box else box) <;>
-      cases (if (xyz.isNone || vel.isNone || box.isNone) = true then file.xyz else xyz) <;> rfl
-  sorry
+  rw [key]
+  cases op.velocityDependent with
+  | false => simp
+  | true =>
+    simp only [if_true]
+    cases value var op _ <;> rfl
+
+example : (calculateOrderFull .asIs (some (.velocity 1 1)) ⟨[], [], none, true⟩ none none none
+      ⟨some exSys.pos, some exSys.vel, exSys.box⟩).val = .ok [-1] ∧
+    (calculateOrderFull .asIs (some (.velocity 1 1)) ⟨[], [], none, false⟩ none none none
+      ⟨some exSys.pos, some exSys.vel, exSys.box⟩).val = .ok [1] := by
+  constructor <;> decide +kernel
+
+/-- **Box forms through `calculate_order`** (code of today): an engine handing over the 9-component box
+    gets the same value as one handing over the 3-component box. -/
+theorem calculateOrderFull_box_forms (op : OP) (s : SysF) (X V : List V3) (x y z : ℚ) (rest : List ℚ)
+    (file : Config) :
+    (calculateOrderFull Variant.current (some op) s (some X) (some V) (some (x :: y :: z :: rest)) file).val =
+      (calculateOrderFull Variant.current (some op) s (some X) (some V) (some [x, y, z]) file).val := by
+  rw [calculateOrderFull_eq, calculateOrderFull_eq]
+  simp only [Option.isNone_some, Bool.or_self, Bool.false_eq_true, if_false, coBox, coPos, Option.getD_some]
+  have := box3_boxN_agree op ⟨X, coVel s (some V), none⟩ x y z rest
+  simp only at this
+  rw [this]
+
+example : (calculateOrderFull Variant.current (some (.distancevel 0 1 true)) ⟨[], [], none, false⟩
+      (some exSys.pos) (some exSys.vel) (some [4, 8, 4, 0, 0, 0, 0, 0, 0]) ⟨none, none, none⟩).val
+    = .ok [3 / 2, 21 / 16] := by decide +kernel
+
+/-- **No order function**: `ValueError`, but only AFTER the System has been given the new arrays (as the code is) -/
+theorem calculateOrderFull_no_order_function (var : Variant) (s : SysF) (x v : List V3) (b : List ℚ)
+    (file : Config) :
+    (calculateOrderFull var none s (some x) (some v) (some b) file).val = .error .noOrderFunction ∧
+    (calculateOrderFull var none s (some x) (some v) (some b) file).sys =
+      ⟨x, if s.velRev then v.map V3.neg else v, some b, s.velRev⟩ := by
+  constructor <;> simp [calculateOrderFull]
+
+/-- **A configuration without a box keeps the box the System had**; without velocities the old velocities
+    stay and are NOT sign-adjusted (as the code is) -/
+theorem calculateOrderFull_missing_blocks (var : Variant) (op : OP) (s : SysF) (x : List V3) :
+    (calculateOrderFull var (some op) s none none none ⟨some x, none, none⟩).sys = ⟨x, s.vel, s.box, s.velRev⟩ := by
+  rw [calculateOrderFull_eq]
+  simp [coPos, coVel, coBox]
+
+/-! ### `Path.reverse` as a whole -/
+
+/-- mirror image with toggled flags: what `Path.reverse` builds before any recomputation -/
+def mirrored (revV : Bool) (frames : List PFrame) : List PFrame :=
+  frames.reverse.map (fun f => if revV then { f with velRev := !f.velRev } else f)
+
+/-- **Position-type parameters (or no order function, or `rev_v = False`)**: the reversed path is the
+    mirror image, every stored order (all components) is kept, `vel_rev` toggled iff `rev_v`; nothing is
+    recomputed and nothing can raise. -/
+theorem pathReverse_no_recompute (rv : ReverseVariant) (var : Variant) (fn : Option (OP × Bool)) (revV : Bool)
+    (maxlen : Option Nat) (frames : List PFrame)
+    (h : fn = none ∨ revV = false ∨ ∃ op, fn = some (op, false)) :
+    pathReverse rv var fn revV maxlen frames = .ok (appendAll maxlen (mirrored revV frames)) := by
+  unfold pathReverse mirrored
+  rcases h with h | h | ⟨op, h⟩
+  · subst h; rfl
+  · subst h; cases fn with
+    | none => rfl
+    | some x => simp
+  · subst h; simp
+
+/-- a path that respects its own `maxlen` loses no frame -/
+theorem appendAll_eq (maxlen : Option Nat) (fs : List PFrame) (h : ∀ m, maxlen = some m → fs.length ≤ m) :
+    appendAll maxlen fs = fs := by
+  cases maxlen with
+  | none => rfl
+  | some m => exact List.take_of_length_le (h m rfl)
+
+/-- what the recomputation does to one frame: coordinates and flag untouched, order replaced by the
+    value on the arrays the variant looks at -/
+theorem recomputeFrame_spec (rv : ReverseVariant) (var : Variant) (op : OP) (f g : PFrame)
+    (h : recomputeFrame rv var op f = .ok g) :
+    g.sys = f.sys ∧ g.velRev = f.velRev ∧
+    (∀ l, value var op (recomputeSys rv f) = .ok l → g.order = .recomputed l) := by
+  unfold recomputeFrame at h
+  split at h
+  · rename_i l hl
+    simp only [Except.ok.injEq] at h; subst h
+    refine ⟨rfl, rfl, fun l' hl' => ?_⟩
+    rw [hl] at hl'; simp only [Except.ok.injEq] at hl'; subst hl'; rfl
+  · rename_i hl
+    simp only [Except.ok.injEq] at h; subst h
+    refine ⟨rfl, rfl, fun l' hl' => ?_⟩
+    rw [hl] at hl'; cases hl'
+  · cases h
+
+/-- **Whole-path statement, any variant**: if `Path.reverse` returns, the new path has the frames of the
+    old one in reverse order (coordinates, velocities, box untouched; none lost when the path respects
+    `maxlen`), every `vel_rev` toggled, and each order recomputed on the arrays the variant looks at. -/
+theorem pathReverse_frames (rv : ReverseVariant) (var : Variant) (op : OP) (maxlen : Option Nat)
+    (frames out : List PFrame) (hm : ∀ m, maxlen = some m → frames.length ≤ m)
+    (h : pathReverse rv var (some (op, true)) true maxlen frames = .ok out) :
+    List.Forall₂ (fun f g => g.sys = f.sys ∧ g.velRev = !f.velRev ∧
+      (∀ l, value var op (recomputeSys rv { f with velRev := !f.velRev }) = .ok l → g.order = .recomputed l))
+      frames.reverse out := by
+  unfold pathReverse at h
+  simp only [Bool.and_self, if_true] at h
+  rw [appendAll_eq maxlen _ (by intro m hm'; simpa using hm m hm'), List.mapM_map] at h
+  refine mapM_forall₂ _ _ (fun f g hfg => ?_) _ _ h
+  have := recomputeFrame_spec rv var op _ g hfg
+  simpa using this
+
+theorem pathReverse_length (rv : ReverseVariant) (var : Variant) (op : OP) (maxlen : Option Nat)
+    (frames out : List PFrame) (hm : ∀ m, maxlen = some m → frames.length ≤ m)
+    (h : pathReverse rv var (some (op, true)) true maxlen frames = .ok out) : out.length = frames.length := by
+  have := (pathReverse_frames rv var op maxlen frames out hm h).length_eq
+  simpa using this.symm
+
+/-- **Repaired variant, whole path**: for a velocity-type parameter every recomputed order is the old
+    frame's order with the first value negated, in mirrored sequence. -/
+theorem pathReverse_repaired_negates (var : Variant) (op : OP) (hvd : op.velocityDependent = true)
+    (maxlen : Option Nat) (frames out : List PFrame) (hm : ∀ m, maxlen = some m → frames.length ≤ m)
+    (h : pathReverse .repaired var (some (op, true)) true maxlen frames = .ok out) :
+    List.Forall₂ (fun f g => ∀ l, frameOrder var op ⟨f.sys, f.velRev⟩ = .ok l → g.order = .recomputed (negHead l))
+      frames.reverse out := by
+  refine List.Forall₂.imp (fun f g hfg => ?_) (pathReverse_frames .repaired var op maxlen frames out hm h)
+  intro l hl
+  have hflip := path_reverse_flips_velocity_order var op ⟨f.sys, f.velRev⟩
+  simp only [reverseRecompute, hvd, if_true] at hflip
+  refine hfg.2.2 (negHead l) ?_
+  show value var op (Frame.physical ⟨f.sys, !f.velRev⟩) = .ok (negHead l)
+  rw [hflip, hl]; rfl
+
+/-- **The code as it is, whole path**: the recomputed order is the value on the STORED velocities, so for
+    frames that were not reversed before (`vel_rev = False`, e.g. a freshly generated forward path) the
+    orders of a velocity-type parameter come back unchanged instead of negated. -/
+theorem pathReverse_asIs_not_negated (var : Variant) (op : OP) (maxlen : Option Nat)
+    (frames out : List PFrame) (hm : ∀ m, maxlen = some m → frames.length ≤ m)
+    (h : pathReverse .asIs var (some (op, true)) true maxlen frames = .ok out) :
+    List.Forall₂ (fun f g => f.velRev = false → ∀ l, frameOrder var op ⟨f.sys, f.velRev⟩ = .ok l →
+      g.order = .recomputed l) frames.reverse out := by
+  refine List.Forall₂.imp (fun f g hfg => ?_) (pathReverse_frames .asIs var op maxlen frames out hm h)
+  intro hf l hl
+  refine hfg.2.2 l ?_
+  show value var op f.sys = .ok l
+  simpa [frameOrder, Frame.physical, hf] using hl
+
+/-- a forward path of three frames, `Velocity(0, 'x')` orders 1, 2, 3 -/
+def fwdPath : List PFrame :=
+  [⟨⟨[⟨0, 0, 0⟩], [⟨1, 0, 0⟩], none⟩, false, .stored [1]⟩,
+   ⟨⟨[⟨1, 0, 0⟩], [⟨2, 0, 0⟩], none⟩, false, .stored [2]⟩,
+   ⟨⟨[⟨3, 0, 0⟩], [⟨3, 0, 0⟩], none⟩, false, .stored [3]⟩]
+
+/-- the whole-path witness of the open finding: as the code is the reversed path has orders 3, 2, 1;
+    on the physical velocities it is −3, −2, −1 -/
+theorem pathReverse_velocity_order_counterexample :
+    (pathReverse .asIs Variant.current (some (.velocity 0 0, true)) true (some 100) fwdPath).map
+      (fun fs => fs.map (fun f => (f.velRev, f.order))) =
+        .ok [(true, .recomputed [3]), (true, .recomputed [2]), (true, .recomputed [1])] ∧
+    (pathReverse .repaired Variant.current (some (.velocity 0 0, true)) true (some 100) fwdPath).map
+      (fun fs => fs.map (fun f => (f.velRev, f.order))) =
+        .ok [(true, .recomputed [-3]), (true, .recomputed [-2]), (true, .recomputed [-1])] ∧
+    (pathReverse .asIs Variant.current (some (.position 0 0, false)) true (some 100) fwdPath).map
+      (fun fs => fs.map (fun f => (f.velRev, f.order))) =
+        .ok [(true, .stored [3]), (true, .stored [2]), (true, .stored [1])] := by
+  refine ⟨?_, ?_, ?_⟩ <;> decide +kernel
+
+/-- the hypotheses of the whole-path theorems hold on the witness path -/
+example : (∀ m, (some 100 : Option Nat) = some m → fwdPath.length ≤ m) ∧
+    OP.velocityDependent (.velocity 0 0) = true ∧
+    (pathReverse .repaired Variant.current (some (.velocity 0 0, true)) true (some 100) fwdPath).toOption.isSome = true := by
+  refine ⟨?_, ?_, ?_⟩
+  · intro m hm; cases hm; decide
+  · rfl
+  · decide +kernel
+
+/-- `maxlen` shorter than the path: the new path silently loses the frames that do not fit (as the code is) -/
+example : (pathReverse .asIs Variant.current none true (some 2) fwdPath).map (fun fs => fs.map (fun f => f.order))
+    = .ok [.stored [3], .stored [2]] := by decide +kernel
+
+/-- **Reversing twice** (no recomputation) gives the path back, flags included -/
+theorem pathReverse_twice (rv : ReverseVariant) (var : Variant) (revV : Bool) (frames : List PFrame) :
+    (pathReverse rv var none revV none frames).bind (pathReverse rv var none revV none) = .ok frames := by
+  simp only [pathReverse, appendAll, Except.bind]
+  congr 1
+  rw [List.map_reverse (l := frames), List.reverse_reverse, List.map_map]
+  cases revV with
+  | false =>
+    have : ((fun f : PFrame => if false = true then { f with velRev := !f.velRev } else f) ∘
+        fun f : PFrame => if false = true then { f with velRev := !f.velRev } else f) = id := by
+      funext f; simp
+    rw [this]; simp
+  | true =>
+    have : ((fun f : PFrame => if true = true then { f with velRev := !f.velRev } else f) ∘
+        fun f : PFrame => if true = true then { f with velRev := !f.velRev } else f) = id := by
+      funext f; cases f; simp
+    rw [this]; simp
 
 end Infretis.C20
